@@ -636,6 +636,9 @@ func cmdCheck(args []string) int {
 	fmt.Printf("govc: property %s: %d obligations, %d discharged, %d known findings, %d violations, %d functions, %.1fs\n",
 		*prop, total, discharged, knownHits, violations, len(fnList), wall)
 	if violations > 0 {
+		if os.Getenv("VERIF_DROP_SMT") != "" {
+			os.RemoveAll(outDir) // (bulk runs on scratch copies: seeds, mutants)
+		}
 		return 1
 	}
 	if os.Getenv("VERIF_KEEP_SMT") == "" {
